@@ -59,7 +59,8 @@ def generate(tier, want_sim=True, light=False):
         if want_sim:
             runs.append(("InnerDef", consts("InnerDef", 4, max_types=2, max_len=3, widths="all", high=(sd % 2 == 0)), 150))
     else:
-        runs = [("InnerDef", consts("InnerDef", 2), None),
+        runs = [("InnerDef", consts("InnerDef", 2, max_len=1), None),
+                ("InnerSmall", consts("InnerSmall", 2), None),
                 ("InnerSmall", consts("InnerSmall", 2, widths="all", high=True, max_len=1), None)]
         if want_sim:
             runs.append(("InnerDef", consts("InnerDef", 5, max_types=3, max_len=3, widths="all"), 3000))
